@@ -96,7 +96,7 @@ func verifUnwind(n int)         {}
 func verifPreempt(n int)        {}
 func verifConcrete(v int) int   { return v }
 func verifExpectDeadlock()      {}
-func verifYield()               {}
+func verifYield()               { verifNativeSleep() }
 
 // verifBytes returns n nondeterministic bytes.
 func verifBytes(tag string, n int) []byte {
@@ -133,3 +133,13 @@ func verifLiveGoroutines() int {
 
 // verifQuiesce waits until all other goroutines are finished or blocked.
 func verifQuiesce() { verifNativeSleep(); verifNativeSleep() }
+
+// verifOnUnwind(1): paths that exceed the unwinding bound are cut silently
+// (unfair schedules of a polling loop). verifWedgeAtUnwind: such a path is a
+// violation (a loop that polls an unchanged state).
+func verifOnUnwind(mode int)        {}
+func verifWedgeAtUnwind(msg string) {}
+
+// verifLastTimer is the duration handed to the last time.AfterFunc (engine);
+// natively the timer cannot be observed and the fallback is returned.
+func verifLastTimer(fallback int64) int64 { return fallback }
